@@ -101,6 +101,10 @@ mod ml_dsa;
 mod ntt;
 mod types;
 
+/// Thin wrappers over crate-private functions for external verification harnesses (non-default)
+#[cfg(feature = "verif-hooks")]
+pub mod verif_hooks;
+
 /// All functionality is covered by traits, such that consumers can utilize trait objects as desired.
 pub mod traits;
 pub use crate::types::Ph;
